@@ -176,3 +176,11 @@ def layout_of(circ, orig, gates):
         else:
             out.append([idx.get(id(b), 0)])
     return out
+
+
+def describe(be, c, items):
+    """printed form of a circuit as a list of lines, and per item whether its gate was declared with the qubits reversed
+    (only CNOT(target-first) of pyclifford's named constructors); judged by TraceCircuit!Drift_CircuitRepr"""
+    named = hasattr(be.circuit, "CNOT")
+    return {"repr": repr(c).split("\n"),
+            "rev": [1 if (named and it.get("how") == "named:CNOTrev") else 0 for it in items]}
